@@ -37,6 +37,8 @@ OUTSIDE = ['maildir new/ directory', 'WeakSet liveness under garbage collection'
 
 _g: dict = {}
 OPS = ['select', 'examine', 'close', 'append', 'noop', 'copy_self', 'store_recent', 'append_other', 'append_rf']
+# two-mailbox histories: the source of a COPY may be selected read-only while the destination is selected elsewhere
+OPS2 = ['select', 'examine', 'select_o', 'examine_o', 'close', 'noop', 'copy_self', 'copy_other', 'append_other']
 
 
 def setup() -> None:
@@ -50,51 +52,54 @@ def program(g, sim, base, m, ns, script, check):
     Recent, Seen = g['Recent'], g['Seen']
     for _ in range(m):
         w.append(0)                     # nobody has it selected: stored as recent
-    ghost = []                          # [uid, set of selection keys that reported it recent]
+    w.append(0, 'Other')                # likewise in the second mailbox
+    ghost = []                          # [(mailbox, uid), set of selection keys that reported it recent]
     selno = [0] * ns
     unclaimed_before_first_rw = None
 
-    def entry(uid):
+    def entry(box, uid):
         for e in ghost:
-            if e[0] is uid:
+            if e[0][0] == box and e[0][1] is uid:
                 return e
         for e in ghost:
-            if bool(e[0] == uid):
+            if e[0][0] == box and bool(e[0][1] == uid):
                 return e
-        e = [uid, set()]
+        e = [(box, uid), set()]
         ghost.append(e)
         return e
 
     def observe(where):
-        store = w.dump('INBOX')
         for s in range(ns):
             sel = w.states[s]._selected
-            if sel is None or sel.lookup != 'INBOX':
+            if sel is None:
                 continue
             rec = list(sel.session_flags.recent_uids)
             if sel.readonly and rec:
                 return '%s: read-only selection of session %d reports \\Recent' % (where, s)
             for u in rec:
-                entry(u)[1].add((s, selno[s]))
+                entry(sel.lookup, u)[1].add((s, selno[s]))
         for e in ghost:
             if len(e[1]) > 1:
                 return '%s: a message was \\Recent in %d selections %r' % (where, len(e[1]), sorted(e[1]))
-        for uid, flags, r in store:
-            if Recent in flags:
-                return '%s: \\Recent stored as a permanent flag' % where
-            if r:
-                e = entry(uid)
-                if e[1]:
-                    return '%s: message both claimed by a session and still stored as unclaimed' % where
+        for box in ('INBOX', 'Other'):
+            for uid, flags, r in w.dump(box):
+                if Recent in flags:
+                    return '%s: \\Recent stored as a permanent flag' % where
+                if r:
+                    e = entry(box, uid)
+                    if e[1]:
+                        return '%s: message both claimed by a session and still stored as unclaimed' % where
         return None
 
     for op, s, a in script:
         st = w.states[s]
         sel = st._selected
-        if op in ('select', 'examine'):
-            store = w.dump('INBOX')
+        if op in ('select', 'examine', 'select_o', 'examine_o'):
+            box = 'Other' if op.endswith('_o') else 'INBOX'
+            op = op[:-2] if op.endswith('_o') else op
+            store = w.dump(box)
             unclaimed = [uid for uid, _, r in store if r]
-            cond, resp = w.select(s, 'INBOX', readonly=(op == 'examine'))
+            cond, resp = w.select(s, box, readonly=(op == 'examine'))
             selno[s] += 1
             if cond != 'OK':
                 return '%s answered %s' % (op, cond)
@@ -120,7 +125,7 @@ def program(g, sim, base, m, ns, script, check):
         elif op == 'noop':
             w.noop(s)
             nsel = st._selected
-            if nsel is not None and not nsel.readonly and nsel.lookup == 'INBOX':
+            if nsel is not None and not nsel.readonly:
                 view = list(nsel.messages._sorted)
                 nrec = 0
                 for u in nsel.session_flags.recent_uids:
@@ -128,10 +133,10 @@ def program(g, sim, base, m, ns, script, check):
                         nrec += 1
                 if w.clients[s].recent is not None and w.clients[s].recent != nrec:
                     return 'RECENT %r announced, %d \\Recent messages in the view' % (w.clients[s].recent, nrec)
-        elif op == 'copy_self':
+        elif op in ('copy_self', 'copy_other'):
             if sel is None:
                 continue
-            w.copy(s, [a], 'INBOX')
+            w.copy(s, [a], 'INBOX' if op == 'copy_self' else 'Other')
         elif op == 'store_recent':
             if sel is None or sel.readonly:
                 continue
@@ -158,7 +163,7 @@ def _harness(m, ns, d, ops):
             op = ops[eng.choose('op%d' % t, len(ops))]
             s = eng.choose('s%d' % t, ns)
             a = None
-            if op in ('copy_self', 'store_recent'):
+            if op in ('copy_self', 'copy_other', 'store_recent'):
                 a = eng.fresh_int('a%d' % t, 1, m + d + 1, cls=SymUid)
             script.append((op, s, a))
         obligations = []
@@ -176,9 +181,10 @@ def _harness(m, ns, d, ops):
 def harnesses(tier):
     from pysymex.runner import Harness
     if tier == 'quick':
-        cfgs = [(1, 2, 3, OPS), (1, 3, 3, ['select', 'examine', 'close', 'append', 'noop'])]
+        cfgs = [(1, 2, 3, OPS), (1, 3, 3, ['select', 'examine', 'close', 'append', 'noop']), (1, 2, 3, OPS2)]
     else:
-        cfgs = [(1, 2, 4, OPS), (2, 3, 4, ['select', 'examine', 'close', 'append', 'noop', 'copy_self'])]
+        cfgs = [(1, 2, 4, OPS), (2, 3, 4, ['select', 'examine', 'close', 'append', 'noop', 'copy_self']), (1, 2, 4, OPS2),
+                (1, 3, 4, ['select', 'examine_o', 'select_o', 'copy_self', 'copy_other', 'noop'])]
     return [Harness('history[m=%d,sessions=%d,d=%d,ops=%d]' % (m, ns, d, len(ops)), _harness(m, ns, d, ops),
                     {'initial_messages': m, 'sessions': ns, 'history_depth': d, 'ops': ops},
                     replay='history', task_budget=60) for m, ns, d, ops in cfgs]
